@@ -430,7 +430,7 @@ func (e *Env) extra() []simrt.Action {
 	}
 	for _, d := range e.TimeJitter {
 		d := d
-		acts = append(acts, simrt.Action{Key: "time:" + d.String(), Kind: "time", Weight: 1, Do: func() { e.Sim.Sleep(d) }})
+		acts = append(acts, simrt.Action{Key: "time:" + d.String(), Kind: "time", Weight: 10, Do: func() { e.Sim.Sleep(d) }})
 	}
 	return acts
 }
